@@ -74,7 +74,36 @@ j = 0
 while j < 2:
     j += 1
     (p, *q), r = [j, 2, 3], j
-msg = f'{total!r:>{j}}|{helper(1)} {p}'
+def branches(v):
+    if v:
+        out = 1
+    else:
+        return -1
+    if v > 5:
+        out = 5
+    elif v > 3:
+        out = 3
+    else:
+        out += 1
+        return out
+    for w in range(v):
+        if w:
+            out += w
+        else:
+            continue
+    else:
+        return out
+    while v:
+        v -= 1
+        if v == 2:
+            out = 2
+        else:
+            break
+    else:
+        out -= 1
+        return out
+    return out
+msg = f'{total!r:>{j}}|{helper(1)} {p}{branches(0)}{branches(2)}{branches(4)}'
 width: int = total + 1
 def annotated(a: int, b: 'str' = 'x', *c: int, d: float = 1.0, **e: int) -> int:
     local: int = a
